@@ -390,3 +390,24 @@ Fixpoint carried_ok (chosen built : list uid) : bool :=
   | c :: cs, b :: bs => uid_same c b && carried_ok cs bs
   | _, _ => false
   end.
+
+(* ---------- one host lookup = one question per address family, each routed on its own ---------- *)
+Definition with_type (q : question) (t : N) : question :=
+  {| q_name := q_name q; q_type := t; q_regex_hits := q_regex_hits q |}.
+(* ver: 4 / 6 = the caller restricts the family (tcp4, udp6, ...); anything else = both, A first *)
+Definition families (ver : N) : list N := if ver =? 4 then [1] else if ver =? 6 then [28] else [1; 28].
+
+(* where ONE question (host, qtype) of dae's own goes: the named upstream, else the first matching general request rule
+   for exactly this name and THIS query type (PlanBase: asis/reject — the question is not sent to any upstream) *)
+Definition question_plan (rc : rconfig) (named : option string) (host : string) (q : question) : plan :=
+  lookup_plan rc named "" host q.
+
+(* the whole lookup: the questions sent (qtype, upstream) in order, and who produced the result
+   (0 the upstreams asked, 300 bootstrap resolver, 301 base resolver); upstreams answer with at least one address *)
+Definition lookup_spec (rc : rconfig) (named : option string) (control_host host : string) (ver : N) (q : question)
+  : list (N * N) * N :=
+  if same_host host control_host && match named with None => true | Some _ => false end then ([], 300)
+  else
+    let sent := flat_map (fun t => match question_plan rc named host (with_type q t) with PlanUp i => [(t, i)] | _ => [] end)
+                         (families ver) in
+    (sent, match sent with _ :: _ => 0 | [] => if same_host host control_host then 300 else 301 end).
